@@ -1155,7 +1155,7 @@ func ruleAtomicOnly(c *Ctx, r *R) {
 				}
 				return
 			}
-			// &x handed to a helper that uses its parameter atomically
+			// &x handed to a helper (or to the literal of a goroutine) that uses its parameter atomically
 			for _, a := range cc.Args {
 				if cell := cellOf(a); cell != nil && paramOnlyAtomic(cc, a) {
 					cells[cell] = true
@@ -1189,6 +1189,11 @@ func ruleAtomicOnly(c *Ctx, r *R) {
 					case *ssa.Call:
 						if !isAtomicFn(&x.Call) && !paramOnlyAtomic(&x.Call, *op) {
 							bad = "passed to non-atomic " + calleeName(&x.Call)
+						}
+					case *ssa.Go:
+						// go func(last *int32, …) {...}(&x, …): the goroutine's literal uses its parameter atomically
+						if !paramOnlyAtomic(&x.Call, *op) {
+							bad = "passed to a goroutine that does not use it atomically: " + calleeName(&x.Call)
 						}
 					case *ssa.Store:
 						// initialisation before the variable escapes to a goroutine
